@@ -33,6 +33,11 @@ def c01(ctx):
         cases = list(cc.gen_cases(rng, n, big=(ctx['tier'] != 'quick')))
     fails, stats = cc.check(cases, want_c02=False) if ctx['model_ok'] else _real_only(cases, False)
     _codec_fail_to_result(res, fails, 'C01')
+    nhist = 0
+    if not ctx.get('replay'):
+        # history independence: the same fields encode to the same bytes after every refused encode() of every packet class
+        fh, nhist = cc.check_history_independence(cases[:40] + cases[-80:] if ctx['tier'] == 'quick' else cases[:200] + cases[-800:])
+        _codec_fail_to_result(res, fh, 'C01')
     # the 16-bit codec, exhaustively, both directions, against the model
     n16 = 0
     if not ctx.get('replay'):
@@ -79,7 +84,7 @@ def c01(ctx):
                 'payload as str and bytearray); each is encoded by the real class (twice, and on a fresh object), decoded by the real class, '
                 'compared with the expected fields and with the Lean model\'s bytes and fields; distinct = distinct (kind, fields); '
                 'all are non-trivial (each exercises an encoder and a decoder); plus the 16-bit codec exhaustively (65536 values)')
-    res.extra = dict(by_kind=stats['by_kind'], remaining_length_bytes=stats['remlen_bytes'], int16_exhaustive=n16)
+    res.extra = dict(by_kind=stats['by_kind'], remaining_length_bytes=stats['remlen_bytes'], int16_exhaustive=n16, history_independence_cases=nhist)
     res.assumptions = ['str values with lone surrogates are outside the model (they cannot be encoded; covered by the C02 table of unrepresentable inputs)']
     return res
 
@@ -323,6 +328,55 @@ def _collect(trace, nprefix):
     return out, tail, frames
 
 
+def _c03_multi(ctx, rng):
+    """framing is per connection: (a) segments of two connections (two broker addresses through one factory) interleaved, (b) a new
+    connection for an address whose previous connection died in the middle of a packet, (c) reads of exactly 65536 bytes (the size
+    Twisted's TCP transport reads at once) ending on and inside packet boundaries. Each as (scenario, reference, nprefix, None):
+    the reference delivers one packet per dataReceived call, connection by connection."""
+    out = []
+    profs = (3,) if ctx['tier'] == 'quick' else (3, 1)
+    for prof in profs:
+        for ver in ('311', '31') if ctx['tier'] != 'quick' else ('311',):
+            pre = ['factory %d' % prof, 'build a0', 'build a1', 'sethandlers 0 7', 'sethandlers 1 7',
+                   'connect 0 %s 0 %s 0' % (s_tok('c0'), ver), 'connect 1 %s 0 %s 1' % (s_tok('c1'), ver), 'recv 0 20020000', 'recv 1 20020000']
+            sA = [publish_pkt('a/x', b'A' * 21, 0), publish_pkt('a/\u00f1', b'B' * 140, 1, mid=10), publish_pkt('a/z', b'', 2, mid=11), ack(0x62, 11)]
+            sB = [publish_pkt('b/x', b'C' * 130, 0), publish_pkt('b/y', b'D', 1, mid=12), pkt(0xD0), publish_pkt('b/z', b'EE', 0)]
+            ref = pre + ['recv 0 %s' % hx(p) for p in sA] + ['recv 1 %s' % hx(p) for p in sB]
+            bA, bB = b''.join(sA), b''.join(sB)
+            for rep in range(6 if ctx['tier'] == 'quick' else 60):
+                cA = sorted(set(rng.randrange(1, len(bA)) for _ in range(rng.choice([1, 2, 4, 8]))))
+                cB = sorted(set(rng.randrange(1, len(bB)) for _ in range(rng.choice([1, 2, 4, 8]))))
+                chA = [bA[a:b] for a, b in zip([0] + cA, cA + [len(bA)])]
+                chB = [bB[a:b] for a, b in zip([0] + cB, cB + [len(bB)])]
+                sc = list(pre)
+                while chA or chB:
+                    if chA and (not chB or rng.random() < 0.5):
+                        sc.append('recv 0 %s' % hx(chA.pop(0)))
+                    else:
+                        sc.append('recv 1 %s' % hx(chB.pop(0)))
+                out.append((sc, ref, len(pre), 'perproto'))
+            # (b) the previous connection of the address died with half a packet in its buffer
+            pre1 = ['factory %d' % prof, 'build a0', 'sethandlers 0 7', 'connect 0 %s 0 %s 0' % (s_tok('c0'), ver), 'recv 0 20020000']
+            tail = ['lost 0 lostc', 'build a0', 'sethandlers 1 7', 'connect 1 %s 0 %s 0' % (s_tok('c0'), ver), 'recv 1 20020000'] + ['recv 1 %s' % hx(p) for p in sA]
+            for k in (1, 2, 3, 7, len(sA[1]) - 1):
+                out.append((pre1 + ['recv 0 %s' % hx(sA[1][:k])] + tail, pre1 + tail, len(pre1), None))
+    # (c) reads of exactly 65536 bytes
+    prof, ver = 3, '311'
+    pre = ['factory %d' % prof, 'build a0', 'sethandlers 0 7', 'connect 0 %s 0 %s 0' % (s_tok('c0'), ver), 'recv 0 20020000', 'setwin 0 4',
+           'publish 0 %s b:41 1 0' % s_tok('t')]
+    big = publish_pkt('big', b'z' * (65536 - 1 - 3 - 5), 0)            # a packet of exactly 65536 bytes
+    assert len(big) == 65536
+    mid_ = publish_pkt('big', b'y' * 70000, 1, mid=20)
+    for pk in ([big], [big, ack(0x40, 1)], [mid_, ack(0x40, 1), publish_pkt('t', b'q' * (2 * 65536 - len(mid_) - 4 - 6), 0)], [ack(0x40, 1), big, big]):
+        sb = b''.join(pk)
+        ref = pre + ['recv 0 %s' % hx(p) for p in pk]
+        for cuts in ([], [1], [65535], [65536], [65537], [65536, 131072], [4096 * i for i in range(1, len(sb) // 4096 + 1) if 4096 * i < len(sb)]):
+            cuts = [c for c in cuts if 0 < c < len(sb)]
+            pos = [0] + cuts + [len(sb)]
+            out.append((pre + ['recv 0 %s' % hx(sb[a:b]) for a, b in zip(pos, pos[1:])], ref, len(pre), None))
+    return out
+
+
 def c03(ctx):
     res = Result()
     rng = cc.RNG(ctx['seed'] + 3000)
@@ -350,6 +404,7 @@ def c03(ctx):
                             pos = [0] + list(c) + [len(sb)]
                             sc = pre + ['recv 0 %s' % hx(sb[a:b]) for a, b in zip(pos, pos[1:])]
                             cases.append((sc, ref, len(pre), [hx(p) for p in pk]))
+        cases += _c03_multi(ctx, rng)
     ref_cache = {}
     split_queries = []      # (scenario, step index, buffer hex, real frames of that step, real buffer after)
     for (sc, ref, npre, packets) in cases:
@@ -365,7 +420,17 @@ def c03(ctx):
         res.distinct.add(_digest(sc[npre:]))
         if len(res.samples) < 2:
             res.sample(sc[npre:][:6])
-        if ref and got[:2] != ref_cache[key][:2]:
+        if packets == 'perproto':
+            # several connections: the order of events across connections follows the interleaving; each connection's own sequence must not
+            byp = lambda obs: {q: [o for o in obs if o.split()[1:2] == [q]] for q in ('0', '1', '2')}
+            if byp(got[0]) != byp(ref_cache[key][0]) or got[1] != ref_cache[key][1]:
+                a, b = byp(got[0]), byp(ref_cache[key][0])
+                q = next((q for q in a if a[q] != b[q]), '0')
+                res.violations.append(dict(what='C03: with segments of two connections interleaved, connection %s acts differently from one packet per chunk: chunked=%s reference=%s'
+                                                % (q, [x[:40] for x in a[q]][:6], [x[:40] for x in b[q]][:6]),
+                                           signature='C03 chunking (two connections)', scenario=sc, reference=ref, nprefix=npre, packets=None))
+            packets = None
+        elif ref and got[:2] != ref_cache[key][:2]:
             a, b = got, ref_cache[key]
             res.violations.append(dict(what='C03: chunked delivery acts differently from one packet per chunk: chunked=%s reference=%s' % (a[0][:8], b[0][:8]),
                                        signature='C03 chunking', scenario=sc, reference=ref, nprefix=npre, packets=packets))
@@ -377,16 +442,17 @@ def c03(ctx):
             res.violations.append(dict(what='C03: exception escaped dataReceived during chunked delivery: %s' % got[0][:6], signature='C03 escape',
                                        scenario=sc, reference=ref, nprefix=npre, packets=packets))
         # framing correspondence: what the model's splitPackets predicts for each dataReceived call
-        buf = b''
+        bufs = {}
         for (op, obs) in tr[npre:]:
             t = op.split()
             if t[0] != 'recv':
                 continue
-            buf += bytes.fromhex(t[2]) if t[2] != '-' else b''
-            frames = [o.split()[2] for o in obs if o.startswith('pkt ')]
-            split_queries.append((sc, op, buf, frames))
+            buf = bufs.get(t[1], b'') + (bytes.fromhex(t[2]) if t[2] != '-' else b'')      # one receive buffer per connection
+            frames = [o.split()[2] for o in obs if o.startswith('pkt ') and o.split()[1] == t[1]]
+            if len(buf) <= 20000:
+                split_queries.append((sc, op, buf, frames))
             consumed = sum(len(bytes.fromhex(f)) for f in frames)
-            buf = buf[consumed:]
+            bufs[t[1]] = buf[consumed:]
     if ctx['model_ok'] and split_queries:
         sub = split_queries if len(split_queries) <= 30000 else split_queries[::max(1, len(split_queries) // 30000)]
         outs = cc.run_lines(['codec split %s' % hx(q[2]) for q in sub])
